@@ -1,5 +1,158 @@
 import Cellml.Basic.Sexp
-/-! Channel C18 of the model driver (stub: not built yet). -/
+import Cellml.C18.Model
+
+/-! Channel C18 of the model driver.
+
+    request  `(C18 fixed|today (stores r0 r1 …) (snaps (snap M0 M1 …) …) (factory ARG …))`
+             `Mi = (m OP (new CREATOR …) (eqs SHAPE …))`          what model `i` of the process looked like after the step
+             `OP = load | userEdit | (conv one|number|incompatible in|out state|free|other nOdes) | sing | fix | rmEq | idle`
+             `CREATOR = cnLiteral | … | singQuantity | (raw string | missing | (foreign r) | (store r))`
+             `SHAPE = (k j) | (a i …)`
+    reply    `((snaps (snap R0 R1 …) …) (factory RES …))`
+             `Ri = (ok (cls (c …) …) (expect CREATOR …) (loaderq n|any …))` or `(rejected)`;
+             `c = s` unit of the store, `b` bare string, `f` foreign, `m` missing, `x` no such object -/
 namespace C18
-def handle (_args : List Sexp) : Sexp := .atom "not-implemented"
+open Sexp
+
+def variant? : Sexp → Option Variant
+  | .atom "fixed" => some .fixed
+  | .atom "today" => some .today
+  | _ => none
+
+def ref? : Sexp → Option UnitRef
+  | .atom "string" => some .bareString
+  | .atom "missing" => some .missing
+  | .list [.atom "foreign", r] => do some (.foreign (← nat? r))
+  | .list [.atom "store", r] => do some (.ofStore (← nat? r))
+  | _ => none
+
+def creator? : Sexp → Option Creator
+  | .atom "cnLiteral" => some .cnLiteral
+  | .atom "connFactor" => some .connFactor
+  | .atom "transformConst" => some .transformConst
+  | .atom "loaderVariable" => some .loaderVariable
+  | .atom "factoryQuantity" => some .factoryQuantity
+  | .atom "newVariable" => some .newVariable
+  | .atom "convFactor" => some .convFactor
+  | .atom "convVariable" => some .convVariable
+  | .atom "origDerivVariable" => some .origDerivVariable
+  | .atom "maybeConvert" => some .maybeConvert
+  | .atom "singQuantity" => some .singQuantity
+  | .list [.atom "raw", r] => do some (.raw (← ref? r))
+  | _ => none
+
+def creatorSx : Creator → Sexp
+  | .cnLiteral => .atom "cnLiteral" | .connFactor => .atom "connFactor" | .transformConst => .atom "transformConst"
+  | .loaderVariable => .atom "loaderVariable" | .factoryQuantity => .atom "factoryQuantity"
+  | .newVariable => .atom "newVariable" | .convFactor => .atom "convFactor" | .convVariable => .atom "convVariable"
+  | .origDerivVariable => .atom "origDerivVariable" | .maybeConvert => .atom "maybeConvert"
+  | .singQuantity => .atom "singQuantity" | .raw _ => .atom "raw"
+
+def cf? : Sexp → Option CF
+  | .atom "one" => some .one | .atom "number" => some .number | .atom "incompatible" => some .incompatible
+  | _ => none
+
+def dir? : Sexp → Option Dir
+  | .atom "in" => some .input | .atom "out" => some .output | _ => none
+
+def role? : Sexp → Option Role
+  | .atom "state" => some .state | .atom "free" => some .free | .atom "other" => some .other | _ => none
+
+def op? : Sexp → Option Op
+  | .atom "load" => some .load
+  | .atom "userEdit" => some .userEdit
+  | .atom "sing" => some .removeSingularities
+  | .atom "fix" => some .fixWriteBack
+  | .atom "rmEq" => some .removeEquation
+  | .atom "idle" => some .idle
+  | .list [.atom "conv", c, d, r, n] => do some (.convertVariable (← cf? c) (← dir? d) (← role? r) (← nat? n))
+  | _ => none
+
+def shape? : Sexp → Option EqShape
+  | .list [.atom "k", j] => do some (.keep (← nat? j))
+  | .list (.atom "a" :: ids) => do some (.atoms (← ids.mapM nat?))
+  | _ => none
+
+def mstep? : Sexp → Option Step
+  | .list [.atom "m", op, .list (.atom "new" :: cs), .list (.atom "eqs" :: es)] => do
+      some { op := (← op? op), creates := (← cs.mapM creator?), eqs := (← es.mapM shape?) }
+  | _ => none
+
+def arg? : Sexp → Option UnitArg
+  | .atom "own" => some .ownUnit | .atom "shared" => some .sharedUnit | .atom "name" => some .knownName
+  | .atom "unknown" => some .unknownName | .atom "none" => some .noneArg
+  | .list [.atom "foreign", r] => do some (.foreignUnit (← nat? r))
+  | _ => none
+
+def classSx (sid : Nat) : Option UnitRef → Sexp
+  | some (.ofStore r) => .atom (if r = sid then "s" else "f")
+  | some .bareString => .atom "b"
+  | some (.foreign _) => .atom "f"
+  | some .missing => .atom "m"
+  | none => .atom "x"
+
+def expectSx : Op → Sexp
+  | .convertVariable c d r n => .list (.atom "expect" :: (convertCreates c d r n).map creatorSx)
+  | .removeEquation => .list [.atom "expect"]
+  | .idle => .list [.atom "expect"]
+  | _ => .list [.atom "expect", .atom "any"]
+
+def isLoaderQuantity : Creator → Bool
+  | .cnLiteral | .connFactor | .transformConst => true
+  | _ => false
+
+/-- does a loaded equation hold as many quantities as its origin allows (pool was empty before the load)? -/
+def loaderEqOk (creates : List Creator) (e : List Nat) : Bool :=
+  let qs := (e.filterMap (fun i => creates[i]?)).filter isLoaderQuantity
+  match qs.head? with
+  | some c => match loaderQuantities c with
+              | some n => qs.length == n && qs.all (· == c)
+              | none => qs.all (· == c)
+  | none => true
+
+def answer (v : Variant) (s : MState) (st : Step) : MState × Sexp :=
+  if st.ok s then
+    let s' := step v s st
+    (s', .list [.atom "ok",
+                .list (.atom "cls" :: (classes s').map (fun e => .list (e.map (classSx s'.storeId)))),
+                expectSx st.op,
+                .list (.atom "loaderq" :: (if st.op = .load then s'.eqs.map (fun e => ofBool (loaderEqOk st.creates e))
+                                           else []))])
+  else (s, .list [.atom "rejected"])
+
+def snap (v : Variant) (w : World) (ms : List Step) : World × List Sexp :=
+  let rec go (w : World) (i : Nat) : List Step → List Sexp → World × List Sexp
+    | [], acc => (w, acc.reverse)
+    | st :: rest, acc =>
+        match w[i]? with
+        | some s =>
+            let (s', r) := answer v s st
+            go (w.set i s') (i + 1) rest (r :: acc)
+        | none => go w (i + 1) rest (.atom "no-such-model" :: acc)
+  go w 0 ms []
+
+def snaps (v : Variant) (w : World) : List (List Step) → List Sexp → List Sexp
+  | [], acc => acc.reverse
+  | ms :: rest, acc =>
+      let (w', rs) := snap v w ms
+      snaps v w' rest (.list (.atom "snap" :: rs) :: acc)
+
+def factorySx (sid : Nat) (a : UnitArg) : Sexp :=
+  match createQuantity sid a with
+  | .ok r => .list [.atom "ok", classSx sid (some r)]
+  | .error .keyError => .list [.atom "raised", .atom "KeyError"]
+
+def handle (args : List Sexp) : Sexp :=
+  match args with
+  | [v, .list (.atom "stores" :: rs), .list (.atom "snaps" :: ss), .list (.atom "factory" :: fs)] =>
+      match variant? v, rs.mapM nat?, ss.mapM (fun s => match s with
+                                                 | .list (.atom "snap" :: ms) => ms.mapM mstep?
+                                                 | _ => none), fs.mapM arg? with
+      | some v, some rs, some ss, some fs =>
+          let w : World := rs.map init
+          .list [.list (.atom "snaps" :: snaps v w ss []),
+                 .list (.atom "factory" :: fs.map (factorySx (rs.headD 0)))]
+      | _, _, _, _ => .atom "bad-request"
+  | _ => .atom "bad-request"
+
 end C18
